@@ -521,6 +521,11 @@ pub fn judge(sc: &Scenario) -> Judgement {
                     return j;
                 }
             }
+            None => {
+                // the follow-up was never answered at all: that is a lifecycle / liveness matter
+                j.notes.push(format!("other-property=C18/C02 follow-up request #{id} got no response"));
+                return j;
+            }
             other => {
                 j.violate(
                     ID,
